@@ -355,7 +355,7 @@ def _complete_path_raw(prefix, line, start, end, ctx, cdpath=True, filtfunc=None
         prefix = p[1]
         path_str_start = p[2]
         path_str_end = p[3]
-        if len(line) >= end + 1 and line[end] == path_str_end:
+        if path_str_end and line[end : end + len(path_str_end)] == path_str_end:
             append_end = False
     tilde = "~"
     # Raw strings (r'...') treat ~ literally — skip tilde expansion
